@@ -20,17 +20,33 @@ MD = {
     "append_fail": "---\nappend: [p1.md]\n---\n\n# d\n\n```scrut\n$ echo a\nb\n```\n",
     "skip": "# d\n\n```scrut\n$ exit 80\n```\n",
     "timeout": "# d\n\n```scrut {timeout: 1s}\n$ sleep 5\n```\n",
-    "allpass": "# d\n\n```scrut\n$ echo a\na\n```\n",
-    "fail": "# d\n\nprose before\n\n```scrut\n$ echo a\nb\n```\n\nprose after\n",
+    # the passing document depends on the Markdown glob dialect (`\\*` is not an escaped star there) and on the per-test
+    # environment of the Markdown executor (SCRUT_TEST set, no Cram variables)
+    "allpass": "# d\n\n```scrut\n$ echo 'C:\\temp'; echo \"${SCRUT_TEST:+set}${CRAMTMP:-nocram}\"\nC:\\* (glob)\nsetnocram\n```\n",
+    # a byte order mark in front of the first line is content like any other
+    "fail": "\ufeff# d\n\nprose before\n\n```scrut\n$ echo a\nb\n```\n\nprose after\n",
     "failcode": "# d\n\n```scrut\n$ echo a; (exit 3)\na\n```\n",
 }
 CRAM = {
     "notests": "Just a title\n",
     "skip": "d\n  $ (exit 80)\n",
-    "allpass": "d\n  $ echo a\n  a\n",
+    "allpass": "d\n  $ echo 'C:*'; echo \"${CRAMTMP:+cram}\"\n  C:\\* (glob)\n  cram\n",
     "fail": "d\n  $ echo a\n  b\n",
     "failcode": "d\n  $ echo a; (exit 3)\n  a\n",
 }
+def expected_update(fmt, cls, text):
+    """the exact text an update of this document must produce (None: not predictable here)"""
+    if fmt == "md" and cls in ("fail", "append_fail"):
+        return text.replace("\n$ echo a\nb\n", "\n$ echo a\na\n")
+    if fmt == "md" and cls == "failcode":
+        return text.replace("\na\n```", "\na\n[3]\n```")
+    if fmt == "cram" and cls == "fail":
+        return text.replace("  $ echo a\n  b\n", "  $ echo a\n  a\n")
+    if fmt == "cram" and cls == "failcode":
+        return text.replace("  a\n", "  a\n  [3]\n")
+    return None
+
+
 STALE = "STALE CONTENT OF AN EARLIER RUN\n"
 SUMMARY = re.compile(r"(\d+) document\(s\) of which (\d+) updated, (\d+) skipped and (\d+) unchanged")
 
@@ -47,6 +63,9 @@ def run_scenario(sc):
         for k, d in enumerate(sc["docs"]):
             ext = "md" if d["fmt"] == "md" else "t"
             text = (MD if d["fmt"] == "md" else CRAM)[d["cls"]]
+            if d["cls"] == "allpass" and sc["flags"]["convert"] not in ("none", d["fmt"]):
+                # a document that is converted must pass in the other format too: nothing format-specific in it
+                text = "# d\n\n```scrut\n$ echo a\na\n```\n" if d["fmt"] == "md" else "d\n  $ echo a\n  a\n"
             orig = os.path.join(ddir, f"d{k + 1}.{ext}")
             with open(orig, "w") as f:
                 f.write(text)
@@ -55,7 +74,7 @@ def run_scenario(sc):
                 with open(new, "w") as f:
                     f.write(STALE)
             conv = os.path.join(root, f"d{k + 1}." + ("t" if ext == "md" else "md"))
-            files.append({"orig": orig, "new": new, "conv": conv, "text": text})
+            files.append({"orig": orig, "new": new, "conv": conv, "text": text, "want": expected_update(d["fmt"], d["cls"], text)})
         fl = sc["flags"]
         argv = [SCRUT_BIN, "update", "--no-color"] + (["--replace"] if fl["replace"] else []) + (["--assume-yes"] if fl["yes"] else [])
         if fl["convert"] != "none":
@@ -76,6 +95,9 @@ def run_scenario(sc):
                   "conv": "absent" if c is None else "changed"}
             fs.append(st)
             for role, path in (("orig", x["orig"]), ("new", x["new"]), ("conv", x["conv"])):
+                if st[role] == "changed" and role != "conv" and x["want"] is not None and open(path, errors="replace").read() != x["want"]:
+                    written_pass = False
+                    detail = f"the written {role} file is not the document with exactly its failing expectation replaced: " + repr(open(path, errors="replace").read()[:200])
                 if st[role] == "changed":
                     # a `.new` file has no recognised extension: test a copy under the document's extension
                     tpath = path
@@ -117,7 +139,11 @@ def stage(prop, tier, work, V, cov, s, replay_body=None):
         one = [x for x in allsc if len(x["docs"]) == 1]
         two = [x for x in allsc if len(x["docs"]) == 2]
         rnd = random.Random(s * 31 + 7)
-        scenarios = one + (two if tier == "thorough" and len(two) <= 3000 else rnd.sample(two, min(len(two), 120 if tier == "quick" else 3000)))
+        # two documents of either format, passing or failing, in every order (state must not leak from one document into the next)
+        pairs = [x for x in two if all(d["cls"] in ("allpass", "fail") and not d["stale"] for d in x["docs"])
+                 and x["flags"]["convert"] == "none" and x["flags"]["replace"] == x["flags"]["yes"]]
+        two = [x for x in two if x not in pairs]
+        scenarios = one + pairs + (two if tier == "thorough" and len(two) <= 3000 else rnd.sample(two, min(len(two), 120 if tier == "quick" else 3000)))
         cov["update_command_states"] = res.distinct
         cov["update_command_scenarios_enumerated"] = len(allsc)
         log(f"MC UpdateCommand: {res.distinct} states, {len(allsc)} scenarios; machine satisfies NoSilentOverwrite/StaleKept/PassingUntouched/FailingGetsUpdated/Accounted, {res.wall:.0f}s")
